@@ -168,6 +168,34 @@ func c02Do(c *core.C, idx int, race bool) {
 	}
 	selPaths := pick(pathCands, 3)
 	selTypes := pick(types, 3)
+	// related roots: a nested type together with the message that encloses it, a method together with its
+	// service, an extension together with its extendee — the filter keeps its roots in maps
+	var related []string
+	{
+		var nestedNames []string
+		idx := s.TypeIndex()
+		for name, ti := range idx {
+			if ti.Parent != nil {
+				nestedNames = append(nestedNames, name)
+			}
+		}
+		sort.Strings(nestedNames)
+		for _, n := range pick(nestedNames, 2) {
+			related = append(related, n, n[:strings.LastIndex(n, ".")])
+		}
+		var mths []string
+		for _, f := range s.AllFiles() {
+			for _, sv := range f.Services {
+				for _, m := range sv.Methods {
+					mths = append(mths, f.Package+"."+sv.Name+"."+m.Name)
+				}
+			}
+		}
+		for _, n := range pick(mths, 2) {
+			related = append(related, n, n[:strings.LastIndex(n, ".")])
+		}
+		related = dedup(related)
+	}
 	cmds := []c02Cmd{
 		{"build binpb", []string{"build", "-o", "-#format=binpb"}, wsDir},
 		{"build json", []string{"build", "-o", "-#format=json"}, wsDir},
@@ -175,6 +203,7 @@ func c02Do(c *core.C, idx int, race bool) {
 		{"build yaml", []string{"build", "-o", "-#format=yaml"}, wsDir},
 		{"build --path", append([]string{"build", "-o", "-#format=binpb"}, flagEach("--path", selPaths)...), wsDir},
 		{"build --type", append([]string{"build", "-o", "-#format=binpb"}, flagEach("--type", selTypes)...), wsDir},
+		{"build --type related", append([]string{"build", "-o", "-#format=binpb"}, flagEach("--type", related)...), wsDir},
 		{"lint json", []string{"lint", "--error-format=json"}, wsDir},
 		{"lint text", []string{"lint"}, wsDir},
 		{"lint junit", []string{"lint", "--error-format=junit"}, wsDir},
@@ -197,7 +226,7 @@ func c02Do(c *core.C, idx int, race bool) {
 		var sel []c02Cmd
 		for _, cmd := range cmds {
 			switch cmd.name {
-			case "build binpb", "build --type", "lint json", "lint junit", "breaking", "format", "ls-files --include-imports", "dep graph json":
+			case "build binpb", "build --type", "build --type related", "lint json", "lint junit", "breaking", "format", "ls-files --include-imports", "dep graph json":
 				sel = append(sel, cmd)
 			}
 		}
@@ -444,8 +473,8 @@ func init() {
 	core.Register(&core.Check{
 		ID:    "C02",
 		Level: "exploration",
-		Rule: "per PRNG-generated workspace (3–5 modules incl. one whose packages form two import cycles sharing the first hop, lint plants, unformatted files, an edited copy for breaking): 20 commands " +
-			"(build binpb/json/txtpb/yaml, build --path, build --type, lint json/text/junit/github-actions, breaking junit, breaking, format, format -d, ls-files ±imports, dep graph dot/json, config ls-lint-rules/ls-breaking-rules) each executed 4 (quick) / 14 (thorough) times under GOMAXPROCS∈{1,2,4,16} × parallelism∈{1,2,3,16} × seeded yields at job dispatch × permuted flag order, " +
+		Rule: "per PRNG-generated workspace (3–5 modules incl. one whose packages form two import cycles sharing the first hop, lint plants, unformatted files, an edited copy for breaking): 21 commands " +
+			"(build binpb/json/txtpb/yaml, build --path, build --type (random and related: nested+enclosing, method+service), lint json/text/junit/github-actions, breaking junit, breaking, format, format -d, ls-files ±imports, dep graph dot/json, config ls-lint-rules/ls-breaking-rules) each executed 4 (quick) / 14 (thorough) times under GOMAXPROCS∈{1,2,4,16} × parallelism∈{1,2,3,16} × seeded yields at job dispatch × permuted flag order, " +
 			"plus permuted modules/rule ids in buf.yaml and shuffled storage walk order at library level; repeated in the -race build. A (workspace, command) pair is counted non-trivial only if ≥2 distinct job-completion orders were actually observed through the thread hook trace",
 		Assumptions: []string{
 			"only the mtime stamps in the ---/+++ headers that diff(1) prints for `format -d` are masked; they are a function of wall-clock time, which the property does not quantify over",
